@@ -247,10 +247,13 @@ type Decoder struct {
 	MustShrinkTo int64
 	// SawUpdates lists the size updates of the last block.
 	SawUpdates []uint32
+	// LowWater is the smallest table maximum in force since the owner last
+	// reset it (used to tell whether a required shrink has already happened).
+	LowWater uint32
 }
 
 func NewDecoder(limit uint32) *Decoder {
-	return &Decoder{T: NewTable(limit), Limit: limit, MustShrinkTo: -1}
+	return &Decoder{T: NewTable(limit), Limit: limit, MustShrinkTo: -1, LowWater: limit}
 }
 
 // SetLimit records a new SETTINGS_HEADER_TABLE_SIZE allowed to the encoder.
@@ -388,6 +391,9 @@ func (d *Decoder) DecodeBlock(b []byte) ([]Field, error) {
 				return out, fmt.Errorf("%w: %d > limit %d", ErrSizeUpdate, n, d.Limit)
 			}
 			d.T.SetMax(uint32(n))
+			if uint32(n) < d.LowWater {
+				d.LowWater = uint32(n)
+			}
 			d.SawUpdates = append(d.SawUpdates, uint32(n))
 			if d.MustShrinkTo >= 0 && int64(n) <= d.MustShrinkTo {
 				d.MustShrinkTo = -1
